@@ -353,7 +353,15 @@ pub fn set_all_training(n: &mut Network, t: bool) {
             Layer::Convolution(d) => d.verif_set_training(t),
             Layer::Deconvolution(d) => d.verif_set_training(t),
             Layer::Maxpool(_) => (),
-            Layer::Feedback(f) => f.training(t),
+            // (every repetition of a block, each inner layer set directly: not through the block's own switch)
+            Layer::Feedback(f) => for il in f.layers.iter_mut() {
+                match il {
+                    Layer::Dense(d) => d.verif_set_training(t),
+                    Layer::Convolution(d) => d.verif_set_training(t),
+                    Layer::Deconvolution(d) => d.verif_set_training(t),
+                    _ => (),
+                }
+            },
         }
     }
 }
@@ -422,6 +430,10 @@ pub fn exec(ctx: &mut Ctx, op: &str, p: &mut Toks) -> String {
             return format!("err {}", c);
         }
     };
+    if matches!(cmd.as_str(), "learn" | "predict") {
+        // the reported count is checked on every network that is trained or evaluated under C10, not only when asked for
+        crate::ops::props::net_oracles_parameters(ctx, &spec, &net);
+    }
     let res: Result<String, String> = match cmd.as_str() {
         "shapes" => {
             let r = try_run(|| {
